@@ -170,6 +170,19 @@ def _int(ex, st, args, kwargs, node):
     raise Unsupported(f"int() of {v.ty}")
 
 
+@lib("divmod")
+def _divmod(ex, st, args, kwargs, node):
+    a, b = args
+    if not (isinstance(a, (VInt, VBool)) and isinstance(b, (VInt, VBool))):
+        raise Unsupported("divmod of non-integers")
+    x, y = ex.as_int(a), ex.as_int(b)
+    sy = z3.simplify(y)
+    if not (z3.is_int_value(sy) and sy.as_long() > 0):
+        # as for // and %: only positive divisors are modelled (z3 div/mod agree with Python's floor semantics there)
+        ex.oblige(st, y > 0, f"positive-divisor@{node.lineno}", kind="exception", line=node.lineno)
+    return VTuple([VInt(x / y), VInt(x % y)])
+
+
 @lib("isinstance")
 def _isinstance(ex, st, args, kwargs, node):
     raise Unsupported("isinstance")
